@@ -148,7 +148,7 @@ func (o *selectOp) execute(t *Thread) {
 	}
 	// Go picks uniformly among the ready cases (and the runtime's wait queues
 	// decide the partner): every alternative is explored.
-	a := alts[t.s.choose(len(alts), len(alts))]
+	a := alts[t.s.chooseData(len(alts))]
 	k := o.cases[a.idx]
 	c := k.ch
 	o.fired = a.idx
